@@ -22,7 +22,7 @@ from .. import effects
 from ..effects import FRESH, UNKNOWN
 import numpy as np
 import sympy as sp
-from ..symx import SymEval, PyStub, symarray, module_aliases, equal, Opaque, WouldRaise, arr
+from ..symx import SymEval, SymObj, PyStub, Path, symarray, module_aliases, equal, is_zero, Opaque, WouldRaise, arr
 
 AT = 'atomman/core/Atoms.py'
 SYS = 'atomman/core/System.py'
@@ -308,58 +308,156 @@ def _atoms_extend_rules(ctx):
 
 
 def type_lists(ctx):
-    for name, bound in (('symbols', None), ('masses', 'self.natypes')):
-        g = ctx.fn(SYS, 'System.' + name)
-        s = ctx.fn(SYS, 'System.' + name, setter=True)
-        gi = [x for x in g.body if isinstance(x, ast.If)]
-        ok = len(gi) == 1
-        gb = sb = None
-        if ok:
-            cc = cmp_canon(gi[0].test)
-            ok = cc is not None and cc[1] == '>' and cc[2] == 'len(self.__%s)' % name and norm(gi[0].body[0]) == 'self.%s = self.__%s' % (name, name)
-            gb = cc[0] if cc else None
-        si = [x for x in s.body if isinstance(x, ast.If) and cmp_canon(x.test) and cmp_canon(x.test)[2] == 'len(value)' and cmp_canon(x.test)[1] == '>']
-        if si:
-            sb = cmp_canon(si[0].test)[0]
-            pad = norm(si[0]).replace(' ', '')
-            okp = 'newvalue=[Noneforxinrange(%s)]' % sb.replace(' ', '') in pad and 'newvalue[i]=value[i]' in pad and 'value=newvalue' in pad
-        else:
-            okp = False
-        ctx.ob('TYPE-LISTS', SYS + '::System.' + name, 'the %s getter pads lazily whenever the stored list is shorter than the bound, by re-running the setter' % name, ok, norm(gi[0].test) if gi else '', node=g, key='getter pads ' + name)
-        ctx.ob('TYPE-LISTS', SYS + '::System.%s.setter' % name, 'the %s setter pads with None up to its bound, keeping given entries in place' % name, okp, node=s, key='setter pads ' + name)
-        ctx.ob('TYPE-LISTS', SYS + '::System.' + name, 'getter and setter of %s pad to the same bound%s' % (name, ' = the system\'s type count' if bound else ''),
-               gb is not None and gb == sb and (bound is None or gb == bound), 'getter bound %s, setter bound %s' % (gb, sb), node=g, key='same bound ' + name)
-        fin = [x for x in s.body if isinstance(x, ast.Assign) and norm(x.targets[0]) == 'self.__' + name]
-        ctx.ob('TYPE-LISTS', SYS + '::System.%s.setter' % name, 'the stored list is an immutable tuple of the padded values', len(fin) == 1 and norm(fin[0].value) == 'tuple(value)', node=s, key='tuple ' + name)
-    ms = ctx.fn(SYS, 'System.masses', setter=True)
-    ref = [x for x in ast.walk(ms) if isinstance(x, ast.If) and cmp_canon(x.test) == ('len(value)', '>', 'self.natypes') and any(isinstance(y, ast.Raise) for y in x.body)]
-    ctx.ob('TYPE-LISTS', SYS + '::System.masses.setter', 'more masses than atom types are refused', len(ref) == 1, node=ms)
+    """symbols / masses / natypes of System interpreted on a model system (the real accessors over an atom table with a given largest type)"""
+    cls = ctx.fn(SYS, 'System')
+    I = sp.Integer
+
+    class At(PyStub):
+        def __init__(self, n):
+            self.natypes = n
+
+    def system(nat, symbols=(), masses=()):
+        return SymObj(cls, {'_System__atoms': At(nat), '_System__symbols': tuple(symbols), '_System__masses': tuple(masses)}, 'self')
+
+    def ev_():
+        ev = SymEval(module_aliases(ctx.mod(SYS)))
+        ev.globals = {'aslist': lambda v: (list(v) if isinstance(v, (list, tuple)) else ([v] if not hasattr(v, 'tolist') else list(v)))}
+        return ev
+
+    def setter(name, obj, value):
+        fn = ctx.fn(SYS, 'System.' + name, setter=True)
+        try:
+            live = [q for q in ev_().run_fn(fn, [obj, value], {}) if q.done == 'return']
+        except WouldRaise:
+            return False
+        except Opaque as e:
+            raise AnalysisError('System.%s setter: %s' % (name, e))
+        return len(live) == 1
+
+    def getter(name, obj):
+        fn = ctx.fn(SYS, 'System.' + name)
+        try:
+            live = [q for q in ev_().run_fn(fn, [obj], {}) if q.done == 'return']
+        except Opaque as e:
+            raise AnalysisError('System.%s: %s' % (name, e))
+        if len(live) != 1:
+            raise AnalysisError('System.%s does not reduce to one path' % name)
+        return live[0].ret
+    num = lambda v: None if v is None else sp.nsimplify(v)
+    for name, stored in (('symbols', '_System__symbols'), ('masses', '_System__masses')):
+        vals = ['Al', 'Cu', 'Ni', 'Fe'] if name == 'symbols' else [I(27), sp.Rational(127, 2), '58.69', I(56)]
+        conv = (lambda v: v) if name == 'symbols' else (lambda v: None if v is None else sp.nsimplify(sp.Float(v) if isinstance(v, str) else v))
+        eq = lambda got, want: isinstance(got, tuple) and len(got) == len(want) and all((a_ is None and b_ is None) or (a_ is not None and b_ is not None and (a_ == b_ if name == 'symbols' else sp.nsimplify(a_) == b_)) for a_, b_ in zip(got, want))
+        loc = SYS + '::System.%s.setter' % name
+        o = system(3)
+        ok = setter(name, o, vals[:1]) and eq(o.attrs[stored], (conv(vals[0]), None, None))
+        ctx.ob('TYPE-LISTS', loc, 'fewer %s than atom types: stored as a tuple padded with None up to the type count, given entries in place' % name, bool(ok), str(o.attrs.get(stored)), node=ctx.fn(SYS, 'System.' + name, setter=True), key='setter pads ' + name)
+        o = system(3)
+        ok = setter(name, o, [vals[0], None, vals[2]]) and eq(o.attrs[stored], (conv(vals[0]), None, conv(vals[2])))
+        ctx.ob('TYPE-LISTS', loc, 'a full list with a gap is stored as given (None kept in place%s)' % ('' if name == 'symbols' else ', numeric text converted to a number'), bool(ok), str(o.attrs.get(stored)),
+               node=ctx.fn(SYS, 'System.' + name, setter=True), key='setter full ' + name)
+        given = [vals[0], vals[1]]
+        o = system(3)
+        setter(name, o, given)
+        ctx.ob('TYPE-LISTS', loc, 'the caller\'s list is not modified', given == [vals[0], vals[1]], node=ctx.fn(SYS, 'System.' + name, setter=True), key='setter arg ' + name)
+        o = system(2, symbols=('Al', 'Cu'))
+        ok = setter(name, o, vals[0]) and eq(o.attrs[stored], (conv(vals[0]), None))
+        ctx.ob('TYPE-LISTS', loc, 'a single value is taken as a one-entry list', bool(ok), str(o.attrs.get(stored)), node=ctx.fn(SYS, 'System.' + name, setter=True), key='setter single ' + name)
+        # lazy padding by the getter after the type count grew
+        o = system(3, **{name: (conv(vals[0]),)})
+        got = getter(name, o)
+        ok = eq(got, (conv(vals[0]), None, None)) and eq(o.attrs[stored], (conv(vals[0]), None, None))
+        ctx.ob('TYPE-LISTS', SYS + '::System.' + name, 'the %s getter pads lazily (and stores the padded tuple) when the type count has grown past the stored list' % name, bool(ok), str(got), node=ctx.fn(SYS, 'System.' + name), key='getter pads ' + name)
+        o = system(2, **{name: (conv(vals[0]), conv(vals[1]))})
+        got = getter(name, o)
+        ctx.ob('TYPE-LISTS', SYS + '::System.' + name, 'a stored list of full length is returned as it is', eq(got, (conv(vals[0]), conv(vals[1]))), str(got), node=ctx.fn(SYS, 'System.' + name), key='getter full ' + name)
+    o = system(2, symbols=('Al', 'Cu', 'Ni', 'Fe'), masses=(I(27), I(63)))
+    got = getter('masses', o)
+    ctx.ob('TYPE-LISTS', SYS + '::System.masses', 'masses are padded to the system\'s type count also when that count comes from the symbols (more symbols than the largest atom type)', isinstance(got, tuple) and len(got) == 4 and got[2:] == (None, None),
+           str(got), node=ctx.fn(SYS, 'System.masses'), key='same bound masses')
+    o = system(2)
+    ok = setter('symbols', o, ['Al', 'Cu', 'Ni', 'Fe']) and o.attrs['_System__symbols'] == ('Al', 'Cu', 'Ni', 'Fe')
+    ctx.ob('TYPE-LISTS', SYS + '::System.symbols.setter', 'more symbols than atom types are kept (they define further types)', bool(ok), node=ctx.fn(SYS, 'System.symbols', setter=True), key='more symbols')
+    o = system(2, symbols=('Al', 'Cu'))
+    before = o.attrs['_System__masses']
+    ok = (not setter('masses', o, [I(1), I(2), I(3)])) and o.attrs['_System__masses'] == before
+    ctx.ob('TYPE-LISTS', SYS + '::System.masses.setter', 'more masses than atom types are refused (stored masses unchanged)', bool(ok), node=ctx.fn(SYS, 'System.masses', setter=True))
+    o = system(2, symbols=('Al', 'Cu', 'Ni'))
+    ok = setter('masses', o, [I(1), I(2), I(3)]) and len(o.attrs['_System__masses']) == 3
+    ctx.ob('TYPE-LISTS', SYS + '::System.masses.setter', 'the bound for masses is the system\'s type count (symbols beyond the largest atom type count)', bool(ok), node=ctx.fn(SYS, 'System.masses', setter=True), key='mass bound')
     nt = ctx.fn(SYS, 'System.natypes')
-    t = norm(nt).replace(' ', '')
-    ok = 'ifnsymbols>self.__atoms.natypes:returnlen(self.symbols)' in t and 'else:returnself.__atoms.natypes' in t
-    ctx.ob('TYPE-LISTS', SYS + '::System.natypes', 'the system\'s type count is the larger of the symbol count and the largest atom type', ok, node=nt)
+    got = [(getter('natypes', system(a_, symbols=sy)), max(a_, len(sy))) for a_, sy in ((3, ()), (2, ('Al', 'Cu', 'Ni')), (3, ('Al',)), (2, ('Al', 'Cu')))]
+    ctx.ob('TYPE-LISTS', SYS + '::System.natypes', 'the system\'s type count is the larger of the symbol count and the largest atom type', all(int(g) == w for g, w in got), str(got), node=nt)
     an = ctx.fn(AT, 'Atoms.natypes')
     t = norm(an).replace(' ', '')
     ctx.ob('TYPE-LISTS', AT + '::Atoms.natypes', 'the atoms\' type count is the largest atype; atype < 1 refused', 'ifnp.min(self.atype)<1:raise' in t and 'returnint(np.max(self.atype))' in t, node=an)
 
 
 def indexing(ctx):
-    isl = ctx.fn(AT, 'Atoms.__intslice')
-    t = norm(isl).replace(' ', '')
-    ok = 'ifintnum==-1:returnslice(intnum,None)' in t and 'returnslice(intnum,intnum+1)' in t
-    ctx.ob('INDEXING', AT + '::Atoms.__intslice', 'an integer index i selects the one-row slice [i:i+1] (and -1 the last row), so rows stay rows', ok, node=isl)
-    for q in ('Atoms.__getitem__', 'Atoms.__setitem__'):
-        fn = ctx.fn(AT, q)
-        t = norm(fn).replace(' ', '')
-        ok = 'ifisinstance(index,(int,np.integer)):index=self.__intslice(index)' in t
-        ctx.ob('INDEXING', AT + '::' + q, 'integer indices are converted to one-row slices before use', ok, node=fn, key='intslice ' + q)
+    """Atoms.__getitem__ / __setitem__ interpreted on a model table: which rows of which property are read / written for each kind of index"""
+    import numpy as np
+    cls = ctx.fn(AT, 'Atoms')
+    I = sp.Integer
+    POS = symarray('x', (4, 3), real=True)
+    TAG = symarray('t', (4,), real=True)
+    TYP = np.array([I(1), I(2), I(1), I(3)], dtype=object)
+
+    def table():
+        return {'atype': TYP.copy(), 'pos': POS.copy(), 'tag': TAG.copy()}
+    forms = [('integer index', I(2), [2]), ('last atom by -1', I(-1), [3]), ('negative integer', I(-3), [1]), ('first atom', I(0), [0]), ('slice', slice(1, 3), [1, 2]), ('list of indices', [3, 0], [3, 0]),
+             ('boolean mask', np.array([True, False, False, True]), [0, 3])]
     gi = ctx.fn(AT, 'Atoms.__getitem__')
-    t = norm(gi).replace(' ', '')
-    ctx.ob('INDEXING', AT + '::Atoms.__getitem__', 'every property is indexed with the same index', 'forkeyinself.view.keys():view[key]=self.view[key][index]' in t and 'returnAtoms(**view)' in t, node=gi)
     si = ctx.fn(AT, 'Atoms.__setitem__')
-    t = norm(si).replace(' ', '')
-    ok = 'assertisinstance(value,Atoms)' in t and 'assertsorted(value.view.keys())==sorted(self.view.keys())' in t and 'forkeyinself.view.keys():self.view[key][index]=value.view[key]' in t
-    ctx.ob('INDEXING', AT + '::Atoms.__setitem__', 'row assignment demands matching property sets and writes every property at the same rows', ok, node=si)
+    for tag, index, rows in forms:
+        made = []
+        obj = SymObj(cls, {'view': table()}, 'self')
+        ev = SymEval(module_aliases(ctx.mod(AT)))
+        ev.globals = {'Atoms': lambda **kw: (made.append(kw), ('ATOMS', kw))[1], 'OrderedDict': dict}
+        try:
+            r = [q for q in ev.run_fn(gi, [obj, index], {}) if q.done == 'return']
+        except (Opaque, WouldRaise) as e:
+            raise AnalysisError('Atoms.__getitem__ (%s): %s' % (tag, e))
+        ok = len(r) == 1 and len(made) == 1 and list(made[0]) == ['atype', 'pos', 'tag'] and r[0].ret == ('ATOMS', made[0])
+        if ok:
+            kw = made[0]
+            ok = np.shape(kw['pos']) == (len(rows), 3) and np.shape(kw['atype']) == (len(rows),) and equal(np.asarray(kw['pos'], dtype=object), POS[rows], deep=False) \
+                and equal(np.asarray(kw['tag'], dtype=object), TAG[rows], deep=False) and [int(v) for v in kw['atype']] == [int(TYP[i]) for i in rows]
+        ctx.ob('INDEXING', AT + '::Atoms.__getitem__', '%s: every property is read at the same rows %s and the result keeps one leading row per selected atom (an integer selects a one-row table)' % (tag, rows), bool(ok),
+               node=gi, key='getitem ' + tag)
+        # assignment of matching rows
+        NEWP = symarray('y', (len(rows), 3), real=True)
+        NEWT = symarray('s', (len(rows),), real=True)
+        NEWA = np.array([I(7)] * len(rows), dtype=object)
+
+        class Val(PyStub):
+            _isa = ('Atoms',)
+            view = {'pos': NEWP, 'atype': NEWA, 'tag': NEWT}
+        obj = SymObj(cls, {'view': table()}, 'self')
+        ev = SymEval(module_aliases(ctx.mod(AT)))
+        try:
+            r = [q for q in ev.run_fn(si, [obj, index, Val()], {}) if q.done == 'return']
+        except (Opaque, WouldRaise) as e:
+            raise AnalysisError('Atoms.__setitem__ (%s): %s' % (tag, e))
+        v = obj.attrs['view']
+        wantp, wantt, wanta = POS.copy(), TAG.copy(), TYP.copy()
+        for k, i in enumerate(rows):
+            wantp[i], wantt[i], wanta[i] = NEWP[k], NEWT[k], NEWA[k]
+        ok = len(r) == 1 and equal(np.asarray(v['pos'], dtype=object), wantp, deep=False) and equal(np.asarray(v['tag'], dtype=object), wantt, deep=False) and [int(x) for x in v['atype']] == [int(x) for x in wanta]
+        ctx.ob('INDEXING', AT + '::Atoms.__setitem__', '%s: every property of the given atoms is written at the same rows %s, all other rows untouched' % (tag, rows), bool(ok), node=si, key='setitem ' + tag)
+    ctx.floor('INDEXING/forms', len(forms), 7)
+    # refusals of row assignment
+    for tag, val in (('a value that is not an Atoms table', 'notatoms'), ('a table with another property set', 'otherkeys')):
+        class Bad(PyStub):
+            _isa = () if val == 'notatoms' else ('Atoms',)
+            view = {'pos': POS[:1], 'atype': TYP[:1]} if val == 'otherkeys' else {'pos': POS[:1], 'atype': TYP[:1], 'tag': TAG[:1]}
+        obj = SymObj(cls, {'view': table()}, 'self')
+        try:
+            r = [q for q in SymEval(module_aliases(ctx.mod(AT))).run_fn(si, [obj, I(0), Bad()], {}) if q.done == 'return']
+            acc = bool(r)
+        except WouldRaise:
+            acc = False
+        unchanged = equal(np.asarray(obj.attrs['view']['pos'], dtype=object), POS, deep=False)
+        ctx.ob('INDEXING', AT + '::Atoms.__setitem__', 'row assignment of %s is refused and nothing is written' % tag, (not acc) and unchanged, node=si, key='setitem refuse ' + val)
     sa = ctx.fn(AT, 'Atoms.__setattr__')
     t = norm(sa).replace(' ', '')
     ctx.ob('INDEXING', AT + '::Atoms.__setattr__', 'attribute assignment of a property goes through the guarded table', 'ifnothasattr(self,name)ornameinself.view:self.view[name]=value' in t, node=sa)
